@@ -148,6 +148,8 @@ impl SegmentLogWriter {
                     format!("Failed to flush log file: {}. {error}", self.file_path)
                 })
                 .map_err(|_| IggyError::CannotWriteToFile)?;
+            #[cfg(iggy_verif)]
+            crate::verif::fs_event("log_append", &self.file_path);
 
             Ok(())
         } else {
